@@ -96,7 +96,8 @@ package signing
 //@   modifies *
 //@   site (*schnorr.ZKProof).Verify#0 : [C17.nonce-share-is-cofactor-cleared-before-its-proof-is-checked] torsionfree(round.Parameters.ec, px($arg2), py($arg2))
 //@   site signing.ecPointToExtendedElement#0 : [C17.nonce-share-is-cofactor-cleared-before-it-is-added-to-R] torsionfree(round.Parameters.ec, val($arg1), val($arg2))
-//@   loop 0 invariant round.started && riBytes != nil && fresh(riBytes)
+//@   ensures [C05.every-peer-nonce-proof-was-checked-and-accepted] result == nil ==> zkok(0) == old(zkok(0)) + edN(round) - 1
+//@   loop 0 invariant round.started && riBytes != nil && fresh(riBytes) && i == round.Parameters.partyID.Index && zkok(0) == old(zkok(0)) + $iter - ite($iter > i, 1, 0)
 
 // ----- the round Start functions: state well-formedness shared by all rounds -----
 //@ define edN(round) = len(round.Parameters.parties.partyIDs)
